@@ -238,9 +238,12 @@ impl EventLoop {
             },
             // Pull a bunch of packets from network, reply in bunch and yield the first item
             o = network.readb(&mut self.state) => {
+                // flush all the acks and return first incoming packet. The acks of the
+                // packets read before one that ended the batch with an error were
+                // announced as well: they go out first
+                let flushed = network.flush().await;
                 o?;
-                // flush all the acks and return first incoming packet
-                network.flush().await?;
+                flushed?;
                 Ok(self.state.events.pop_front().unwrap())
             },
             // We generate pings irrespective of network activity. This keeps the ping logic
